@@ -107,11 +107,14 @@ class G:
         if roll < 0.08:
             w += ' ' + self.word(1, 5, unusual)          # inner blank
         elif roll < 0.12:
-            w += r.choice([',', '"', "'", ':', '-', '.', '#', '(', ')', '%', '&']) + self.word(1, 3, 0)   # inner punctuation
+            w += r.choice([',', '"', "'", ':', '-', '.', '#', '(', ')', '%', '&', '=', '+', '@', ';', '|', '<', '>', '*', '?', '\\', '`', '$', '!', '~']) + self.word(1, 3, 0)   # inner punctuation
         elif roll < 0.16:
             w += str(r.randint(0, 999))
         elif roll < 0.18:
             w = str(r.randint(1, 99)) + w
+        elif roll < 0.20:
+            # a first character that spreadsheets, shells or mark-up treat specially; for the program it is a letter like any other
+            w = r.choice(['=', '+', '@', '(', '.', '_', '~', '*', '!', '$', '&', '<', '[', '%', '\\', '|', ';']) + w
         return w
 
     def name(self, segments=None, unusual=0.25):
